@@ -218,3 +218,33 @@ example : KeyOK [['d', 'i', 'r'], ['é', ' ', 'x']] := by decide
 example : (Entry.toDict { mt := some {}, hashInfo := some { name := some kMd5, value := some ['a', '.', 'd', 'i', 'r'] }, loaded := some false }).mt = some [] := by decide
 
 end DvcData.Serialize
+
+/-! ### a directory listing entry read back under its hash name -/
+namespace DvcData.Tree
+open DvcData Path Json MetaInfo AList
+
+/-- **listing round trip (one entry)**: what `as_list` writes for an entry with an md5 hash, `from_list` reads
+    back as the same key and the same hash (mirrored into the metadata field of that name) -/
+theorem listing_entry_roundtrip (k : Key) (hk : KeyOK k) (v : Str) (hv : v.isEmpty = false) (m : Option Meta) :
+    entryOfDict (some md5Name) (entryDict false (k, (m, some { name := some md5Name, value := some v }))) =
+      some (k, (some { md5 := some v }, some { name := some md5Name, value := some v })) := by
+  have hd : entryDict false (k, (m, some { name := some md5Name, value := some v })) =
+      [(md5Name, .str v), (relpathKey, .str (joinC k))] := by
+    simp only [entryDict, hiToDict, HashInfo.truthy, hv, Bool.not_false, Bool.not_true, Bool.false_eq_true, if_false,
+      HashInfo.toDict]
+    have h1 : (some md5Name = some dos2unixName) = False := by simp [md5Name, dos2unixName, kMd5]
+    have h2 : md5Name.isEmpty = false := by decide
+    simp [h1, h2, hv, AList.set, md5Name, relpathKey, kMd5]
+  rw [hd]
+  have hl : AList.lookup ([(md5Name, JVal.str v), (relpathKey, JVal.str (joinC k))] : JObj) relpathKey = some (.str (joinC k)) := by
+    simp [AList.lookup_cons, md5Name, relpathKey, kMd5]
+  have he : AList.erase ([(md5Name, JVal.str v), (relpathKey, JVal.str (joinC k))] : JObj) relpathKey = [(md5Name, .str v)] := by
+    simp [AList.erase, md5Name, relpathKey, kMd5]
+  simp only [entryOfDict, hl, he]
+  have hm : Meta.fromDict [(md5Name, JVal.str v)] = { md5 := some v } := by
+    simp [Meta.fromDict, getBool, getNat, getStr, AList.lookup_cons, md5Name, kMd5, kIsdir, kSize, kNfiles, kIsexec, kVersionId,
+      kEtag, kChecksum, kInode, kMtime, kRemote]
+  have hn : (md5Name = dos2unixName) = False := by simp [md5Name, dos2unixName, kMd5]
+  simp [hm, hn, splitC_joinC k hk]
+
+end DvcData.Tree
